@@ -150,6 +150,26 @@ Certified ==
 Anchored == {"E_a_1", "E_a_2", "E_b_1", "E_b_2"} \subseteq Certified
 
 (***************************************************************************)
+(* Links between the sub-proofs of the two composite proofs: which embedded *)
+(* statement is compared with which other value by proof_verify /           *)
+(* verify_proof.  A sub-proof whose statement is not linked can be replaced *)
+(* by a sub-proof about another commitment.  (F11, outside the listed       *)
+(* properties: reported by `MissingLinks`, demonstrated by the drivers as   *)
+(* informational CLInfoLink events.)                                        *)
+(***************************************************************************)
+Link(a, b) == [a |-> a, b |-> b]
+SpokLinksChecked == { Link("spok/Ce/value", "range_proof_e/E") }
+SpokLinksNeeded  == SpokLinksChecked \cup
+  { Link("proofs_commited_mi/*/commitment/value", "range_proofs_commited_mi/*/E"),     \* range proof about the per-attribute commitment
+    Link("proofs_commited_mi/*/commitment/value", "spok/Cx/value") }                     \* per-attribute commitment about the attribute in Cx
+ZkpokLinksChecked == {}
+ZkpokLinksNeeded ==
+  { Link("proofs_commited_mi/*/commitment/value", "range_proofs_mi/*/E"),
+    Link("proofs_commited_mi/*/commitment/value", "C"),
+    Link("proof_r/commitment/value", "range_proof_r/E") }
+MissingLinks == [spok |-> SpokLinksNeeded \ SpokLinksChecked, zkpok |-> ZkpokLinksNeeded \ ZkpokLinksChecked]
+
+(***************************************************************************)
 (* Part 4: blinding lengths (bits) of every response s = r + c * x          *)
 (* c: 256-bit Fiat-Shamir challenge; x: the secret; r: random_bits(n)       *)
 (* returns exactly n-bit values.  Criterion of property C19:                *)
